@@ -689,6 +689,7 @@ Definition check_C04 := check_with (monitor judge_C04).
 Definition check_C05 := check_with (fun c => first_some (monitor (judge_C05 (case_cfg c)) c) (payload_monitor c)).
 Definition check_C07 := check_with monitor_C07.
 Definition check_C08 := check_with (monitor judge_C08).
-Definition check_C09 := check_with (fun c => first_some (monitor (judge_C09 (case_cfg c)) c) (payload_monitor c)).
+(* C09 also reads the clock: "active exactly when ... it has not expired" (the expiry clauses of the C07 monitor) *)
+Definition check_C09 := check_with (fun c => first_some (first_some (monitor (judge_C09 (case_cfg c)) c) (payload_monitor c)) (monitor_C07 c)).
 Definition check_C16 := check_with (fun c => first_some (monitor (judge_C16 (case_cfg c) (is_contract_case c)) c) (payload_monitor c)).
 Definition check_C17 := check_with (fun c => first_some (monitor (judge_C17 (case_cfg c)) c) (monitor (judge_C03 (case_cfg c)) c)).
